@@ -538,8 +538,15 @@ pub fn run(case: &Case, ctx: &mut Ctx<'_>) {
                     Some(s) => check_content(ctx, "borrow_with_sup sup", s, &m2, lp2),
                     None => ctx.violate("c17_routing", "borrow_with_sup lost the sup".into()),
                 }
+                // the kind of file travels with the sections (a DWO keeps being read with the
+                // DWO rules after it has been borrowed)
+                let mut d = d;
+                d.file_type = if fail_at % 2 == 0 { DwarfFileType::Dwo } else { DwarfFileType::Main };
                 #[allow(deprecated)]
                 let d2 = d.borrow(|r| *r);
+                if d2.file_type != d.file_type {
+                    ctx.violate("c17_routing", format!("Dwarf::borrow: file type {:?} became {:?}", d.file_type, d2.file_type));
+                }
                 check_content(ctx, "Dwarf::borrow", &d2, &m, lp);
                 match d2.sup() {
                     Some(s) => check_content(ctx, "Dwarf::borrow sup", s, &m2, lp2),
